@@ -31,6 +31,7 @@ func createASTTypeExpr(pkg string, t types.Type, varPool *VarPool, imports map[s
 		}, nil
 	case *types.Named:
 		name := typ.Obj().Name()
+		var expr ast.Expr = ast.NewIdent(name)
 		if objPkg := typ.Obj().Pkg(); objPkg != nil && objPkg.Path() != pkg {
 			// For types from other packages, create a selector expression
 			// Format: package.TypeName
@@ -49,15 +50,16 @@ func createASTTypeExpr(pkg string, t types.Type, varPool *VarPool, imports map[s
 				}
 			}
 
-			return &ast.SelectorExpr{
+			expr = &ast.SelectorExpr{
 				X:   ast.NewIdent(pkgName),
 				Sel: ast.NewIdent(name),
-			}, nil
+			}
 		}
 
-		return ast.NewIdent(name), nil
+		return instantiateTypeExpr(pkg, expr, typ.TypeArgs(), varPool, imports)
 	case *types.Alias:
 		name := typ.Obj().Name()
+		var expr ast.Expr = ast.NewIdent(name)
 		if objPkg := typ.Obj().Pkg(); objPkg != nil && objPkg.Path() != pkg {
 			// For types from other packages, create a selector expression
 			// Format: package.TypeName
@@ -76,13 +78,13 @@ func createASTTypeExpr(pkg string, t types.Type, varPool *VarPool, imports map[s
 				}
 			}
 
-			return &ast.SelectorExpr{
+			expr = &ast.SelectorExpr{
 				X:   ast.NewIdent(pkgName),
 				Sel: ast.NewIdent(name),
-			}, nil
+			}
 		}
 
-		return ast.NewIdent(name), nil
+		return instantiateTypeExpr(pkg, expr, typ.TypeArgs(), varPool, imports)
 	case *types.Slice:
 		expr, err := createASTTypeExpr(pkg, typ.Elem(), varPool, imports)
 		if err != nil {
@@ -207,6 +209,28 @@ func createASTTypeExpr(pkg string, t types.Type, varPool *VarPool, imports map[s
 	default:
 		return nil, fmt.Errorf("unsupported type: %s", t.String())
 	}
+}
+
+// instantiateTypeExpr appends the type arguments of a generic instance (Box[int], pkg.Pair[K, V]) to its name.
+func instantiateTypeExpr(pkg string, expr ast.Expr, typeArgs *types.TypeList, varPool *VarPool, imports map[string]*Import) (ast.Expr, error) {
+	if typeArgs.Len() == 0 {
+		return expr, nil
+	}
+
+	indices := make([]ast.Expr, 0, typeArgs.Len())
+	for i := 0; i < typeArgs.Len(); i++ {
+		argExpr, err := createASTTypeExpr(pkg, typeArgs.At(i), varPool, imports)
+		if err != nil {
+			return nil, fmt.Errorf("type argument %d: %w", i, err)
+		}
+		indices = append(indices, argExpr)
+	}
+
+	if len(indices) == 1 {
+		return &ast.IndexExpr{X: expr, Index: indices[0]}, nil
+	}
+
+	return &ast.IndexListExpr{X: expr, Indices: indices}, nil
 }
 
 func CreateInjector(metaData *MetaData, build *BuildDirective, varPool *VarPool) (*Injector, error) {
